@@ -636,7 +636,7 @@ def catalogue(kind="ecu"):
 
     a1 = [p1(), p1(("AB", 5)), p1(("CD", 5), ("AB", 34)),
           {"k": "resp", "layout": "g", "v": {"rsid": 0x22, "gnrc": 34}},
-          {"k": "trunc", "layout": "p1", "v": {"items": [("AB", 34)] and [{"type": "AB", "ver": 34}]}, "len": 1}]
+          {"k": "trunc", "layout": "p1", "v": {"items": [{"type": "AB", "ver": 34}]}, "len": 1}]
     a2 = [p0(5, "AB", 34), {"k": "resp", "layout": "n0", "v": {"nrc": 5}}]
     ecus = []
     for x, y, z in itertools.product(a0, a1, a2):
@@ -715,7 +715,7 @@ def run_shard(spec, seed, tier):
         return res
     cases = _strategies()
     n_ecus = 4
-    n = 300 if tier == "quick" else 1500
+    n = 300 if tier == "quick" else 2000
 
     def body(case):
         cfg = case["cfg"]
